@@ -267,17 +267,17 @@ var laterRules = map[string]string{
 	"C07": " ALSO DECIDED: complete-lines (shared with C09: the JSON decoder parses copied, newline-terminated lines of any length; bufio.Scanner framing is rejected); the header wire-format helper is recognised by effect, also when written in place.",
 	"C08": " ALSO DECIDED: output-truncated (os.Create or O_TRUNC); codec-table agreement of C07 and the complete-line rule of C09 (transcoding chains); table form of the -to selection. lexer-options (only the input of the jlexer.Lexer is set: UseMultipleErrors would turn type errors into non-fatal ones that Error() does not report).",
 	"C09": " ALSO DECIDED: sniff-replay of DecoderFor (shared with C08): the commands reach every decoder through it.",
-	"C10": " ALSO DECIDED: first-sample-marker (the field whose nil-ness Add uses as 'first sample' is written on the shared value only from Add); builtin min/max accumulator form; single-site helpers of Add are analysed as inlined.",
+	"C10": " ALSO DECIDED: first-sample-marker (the field whose nil-ness Add uses as 'first sample' is written on the shared value only from Add); builtin min/max accumulator form; single-site helpers of Add are analysed as inlined. a min/max update written as a first-sample arm and a comparison arm on the two edges of one test is judged as one update.",
 	"C11": " ALSO DECIDED: the t-digest adapter itself (not a wrapper around it) is what init installs.",
 	"C12": " ALSO DECIDED: bucket fields are trimmed of all white space before time.ParseDuration; bounds come from ParseDuration unchanged (wrapper recognised); comparison polarity is tracked, the scan may live in a single-site helper.",
 	"C13": " ALSO DECIDED: the round-robin decoder decodes straight into the caller's Result; complete-lines and sniff-replay (records of any length, no fixed detection window).",
-	"C14": " ALSO DECIDED: header-case scope includes the JSON target codec and Target.Equal; clone helpers must clip the capacity of values carved from one array; variadic merge helpers are followed.",
+	"C14": " ALSO DECIDED: header-case scope includes the JSON target codec and Target.Equal; clone helpers must clip the capacity of values carved from one array; variadic merge helpers are followed. body-ends-block (once a call has stored the target's own body it consumes no further line it has not peeked at); lookahead-skips-comments (the request-line test on the looked-ahead line is made on a line known not to be a comment, or is repeated after every comment skipped inside the block — finding F9); exhaustion in path form (ErrNoTargets test in either polarity, inside or after the loop).",
 	"C15": " ALSO DECIDED: source-stays-open (no Close in the targeters: every caller after exhaustion gets ErrNoTargets); inner targeter literal under a thin locked wrapper; self-locking helper types. one-critical-section (the lock is taken once per call: no second acquisition reachable from the first, none in a loop, counting the local function literals the targeter calls that lock by themselves).",
-	"C16": " ALSO DECIDED: scanner-split (a custom bufio.SplitFunc advances with every token); search-result, copy() and tested i+k bounds.",
+	"C16": " ALSO DECIDED: scanner-split (a custom bufio.SplitFunc advances with every token); search-result, copy() and tested i+k bounds. a lookahead wrapper (Peek) counts as consuming when every path through it consumes, its failure returns the zero value and the loop repeats only under a test the zero value fails.",
 	"C17": " ALSO DECIDED: the reorder buffer is never reassigned after construction; release loop and row construction may live in single-site helpers. row-blank (every block of float64 cells a row is taken from is filled with NaN over its whole length before a row from it is appended; rows built by helpers or carved from a backing array are followed).",
 	"C18": " ALSO DECIDED: dns-refresh (the refresh goroutine calls Resolver.Refresh(true) inside its ticker loop: no cache entry outlives a refresh interval unresolved); the connect-to mapping is consulted once per dial, not in a loop (a replacement that is itself a source address is not translated again); bound-method dial closures and value-form previous dialers are followed.",
-	"C19": " ALSO DECIDED: special values store the parser's result through conversions only; validation in predicate or single-site helpers is followed by path exploration.",
+	"C19": " ALSO DECIDED: special values store the parser's result through conversions only; validation in predicate or single-site helpers is followed by path exploration. strings.Cut form of the rate syntax, concatenated String form, ParseDuration through a returning helper, strings.Join over a constant re-slice of the parts.",
 	"C20": " ALSO DECIDED: metric-opts (vectors are created with name, help and buckets only). register-error (no failure of Registerer.Register is dropped: on every path from the error edge the error value is wrapped, joined, stored or returned before the loop goes on or Register returns).",
 }
 
-const engineNote = " ENGINE: values are described by canonical, rename-proof paths; unexported helpers with a single call site are analysed as if inlined (parameters bound to arguments, caller facts, context-sensitive continuation at their returns); method-value closures, literal tables and typed atomics are normalised. Verdicts therefore do not depend on identifier names or on whether a step lives in a helper."
+const engineNote = " ENGINE: values are described by canonical, rename-proof paths; unexported helpers with a single call site — and function literals created once, held in a register and called from one place — are analysed as if inlined (parameters bound to arguments, caller facts, context-sensitive continuation at their returns); method-value closures, literal tables and typed atomics are normalised. Verdicts therefore do not depend on identifier names or on whether a step lives in a helper."
